@@ -281,7 +281,7 @@ impl RuleGen {
             match rng.below(8) {
                 0..=2 => (Value::Null, Value::Null),
                 3 => (json!([]), Value::Null),
-                4 => (json!(["GET"]), Value::Null),
+                4 => (if rng.coin() { json!(["GET"]) } else { json!(["GET", "PUT", "DELETE"]) }, Value::Null),
                 5 => (json!(["POST", "PUT"]), Value::Null),
                 6 => (json!(["GET", "POST"]), json!(true)),
                 _ => (json!([rng.pick_str(METHODS)]), if rng.coin() { json!(true) } else { Value::Null }),
